@@ -3,6 +3,88 @@ import BnpVerif.Model.C17
 `Audit/C17.lean`. -/
 namespace C17
 
+/-! ### wrapped layout -/
+
+theorem wrap_nil (W : Nat) : wrapBytes W [] = [] := by
+  rw [wrapBytes]; simp
+
+theorem wrap_cons (W : Nat) (hW : 0 < W) (seq : Bytes) (hs : seq ≠ []) :
+    wrapBytes W seq = seq.take W ++ 10 :: wrapBytes W (seq.drop W) := by
+  rw [wrapBytes]
+  have : ¬ (seq = [] ∨ W = 0) := by
+    intro h; cases h with | inl h => exact hs h | inr h => omega
+  simp [this]
+
+theorem posOf_lt (W i : Nat) (h : i < W) : posOf W i = i := by
+  unfold posOf
+  rw [Nat.div_eq_of_lt h, Nat.mod_eq_of_lt h]; omega
+
+theorem posOf_ge (W i : Nat) (hW : 0 < W) (h : W ≤ i) : posOf W i = (W + 1) + posOf W (i - W) := by
+  unfold posOf
+  obtain ⟨k, rfl⟩ : ∃ k, i = k + W := ⟨i - W, by omega⟩
+  rw [Nat.add_sub_cancel, Nat.add_div_right _ hW, Nat.add_mod_right, Nat.succ_mul]
+  omega
+
+/-- **C17.layout** (bases): in the wrapped block, byte `posOf W i` is base `i` -/
+theorem layout (W : Nat) (hW : 0 < W) (seq : Bytes) (i : Nat) (hi : i < seq.length) :
+    (wrapBytes W seq)[posOf W i]? = seq[i]? := by
+  induction hn : seq.length using Nat.strongRecOn generalizing seq i with
+  | _ n ih =>
+    have hs : seq ≠ [] := by intro h; subst h; simp at hi
+    rw [wrap_cons W hW seq hs]
+    by_cases hlt : i < W
+    · rw [posOf_lt W i hlt, List.getElem?_append_left (by simp; omega)]
+      rw [List.getElem?_take]; simp [hlt]
+    · have hge : W ≤ i := by omega
+      rw [posOf_ge W i hW hge]
+      have hl : (seq.take W).length = W := by simp; omega
+      rw [List.getElem?_append_right (by omega), hl]
+      have : W + 1 + posOf W (i - W) - W = posOf W (i - W) + 1 := by omega
+      rw [this, List.getElem?_cons_succ]
+      rw [ih (seq.length - W) (by omega) (seq.drop W) (i - W) (by simp; omega) (by simp)]
+      rw [List.getElem?_drop]
+      congr 1; omega
+
+/-- **C17.layout** (line breaks): the newline that ends line `j` sits right after its bases, at
+`(j+1)(W+1) − 1` for a full line -/
+theorem layout_newline (W : Nat) (hW : 0 < W) (seq : Bytes) (j : Nat) (hj : j * W < seq.length) :
+    (wrapBytes W seq)[min ((j + 1) * W) seq.length + j]? = some 10 := by
+  induction j generalizing seq with
+  | zero =>
+    have hs : seq ≠ [] := by intro h; subst h; simp at hj
+    rw [wrap_cons W hW seq hs]
+    have hl : (seq.take W).length = min W seq.length := by simp
+    rw [List.getElem?_append_right (by simp), hl]
+    simp
+  | succ k ih =>
+    have hs : seq ≠ [] := by intro h; subst h; simp at hj
+    have hWL : W ≤ seq.length := by
+      have : W ≤ (k + 1) * W := Nat.le_mul_of_pos_left W (by omega)
+      omega
+    rw [wrap_cons W hW seq hs]
+    have hl : (seq.take W).length = W := by simp; omega
+    have e1 : (k + 1 + 1) * W = (k + 1) * W + W := Nat.succ_mul _ _
+    have e2 : (k + 1) * W = k * W + W := Nat.succ_mul _ _
+    rw [List.getElem?_append_right (by rw [hl]; omega), hl]
+    have hk := ih (seq.drop W) (by simp; omega)
+    simp only [List.length_drop] at hk
+    have : min ((k + 1 + 1) * W) seq.length + (k + 1) - W = (min ((k + 1) * W) (seq.length - W) + k) + 1 := by omega
+    rw [this, List.getElem?_cons_succ, hk]
+
+theorem wrap_short (W : Nat) (seq : Bytes) (h : seq.length ≤ W) (hs : seq ≠ []) :
+    wrapBytes W seq = seq ++ [10] := by
+  have hW : 0 < W := by
+    cases seq with | nil => exact absurd rfl hs | cons _ _ => simp at h; omega
+  rw [wrap_cons W hW seq hs, List.take_of_length_le h, List.drop_of_length_le h, wrap_nil]
+
+/-- wrapping at `W` and at `min W L` give the same bytes -/
+theorem wrap_min (W : Nat) (seq : Bytes) (hs : seq ≠ []) :
+    wrapBytes W seq = wrapBytes (min W seq.length) seq := by
+  by_cases h : seq.length ≤ W
+  · rw [Nat.min_eq_right h, wrap_short W seq h hs, wrap_short seq.length seq (Nat.le_refl _) hs]
+  · rw [Nat.min_eq_left (by omega)]
+
+
 /-- **C17.contig_lengths**: the lengths reported are the index's sequence-length column -/
 theorem contig_lengths_rows (idx : List IdxRow) :
     contigLengths idx = idx.map (fun r => (firstWord r.name, r.rlen)) := rfl
